@@ -60,10 +60,16 @@ class Faults(object):
 
 
 def conversation(sx, typ, fsci, fwi, tx_size, clens, rlens, wtx, budget, kinds, go_on=False,
-                 wtx_in_chain=False, wtx_counts=(1,)):
+                 wtx_in_chain=False, wtx_counts=(1,), ats_layouts=None):
     w = worlds.T4World(sx, 0x20, 255, 255, 16, 3, typ=typ, fsci=fsci, fwi=fwi,
                        tx_size=tx_size, wtx_at=wtx, fill=0x41)
     card = w.sim
+    if ats_layouts:
+        # any subset of TA(1)/TB(1)/TC(1) in the ATS; the card takes 60 % of
+        # the frame waiting time it announced (or of the default) per command
+        card.ats_layout = sx.pick("ats_layout", list(ats_layouts))
+        card.busy_fraction = 0.6
+        sx.reach("ats_layout_varied")
     tag = w.fresh_tag()
     if tag is None:
         sx.check(False, "activate-returned-none")
@@ -199,6 +205,13 @@ def partitions(tier):
     P.append(dict(name="A:fwi11:chained", fn="conversation",
                   params=dict(typ="A", fsci=2, fwi=11, tx_size=29, clens=["2m+1"], rlens=["2m+1"],
                               wtx=[], budget=2 if tier == "quick" else 3, kinds=kinds)))
+    # activation responses with every subset of interface bytes; the card is
+    # slow but within the frame waiting time it announced
+    for fwi in (7, 10):
+        P.append(dict(name="A:ats-layout:fwi%d" % fwi, fn="conversation",
+                      params=dict(typ="A", fsci=2, fwi=fwi, tx_size=29, clens=[2, 1], rlens=[1, 2],
+                                  wtx=[], budget=0, kinds=kinds,
+                                  ats_layouts=["ABC", "BC", "AB", "B", "", "A", "C", "AC"])))
     P.append(dict(name="A:no-retry-budget", fn="conversation",
                   params=dict(typ="A", fsci=2, fwi=14, tx_size=29, clens=["1m+1"], rlens=["1m+1"],
                               wtx=[], budget=1, kinds=kinds)))
@@ -213,7 +226,7 @@ def partitions(tier):
 
 
 MUST_REACH = ["apdu_completed", "completed_despite_faults", "tag_command_error",
-              "command_chained", "response_chained", "wtx", "apdu_after_failed_exchange", "wtx_during_response_chaining", "wtx_repeated"]
+              "command_chained", "response_chained", "wtx", "apdu_after_failed_exchange", "wtx_during_response_chaining", "wtx_repeated", "ats_layout_varied"]
 BOUNDS = {"quick": "<=2 faults per conversation out of {command lost, response lost, response garbled} at each of the first 24 blocks; FSCI 0/2/3; command/response lengths around multiples of FSC-3; 1-3 consecutive APDUs; one S(WTX); FWI 4 and 14; APDU and response bytes symbolic",
           "thorough": "<=3 faults; FSCI 0/2/3/5/8"}
 OUTSIDE = ["CID/NAD", "extended length APDUs", "more than 24 blocks per conversation", "FSD below 256"]
